@@ -17,7 +17,9 @@
    Values are *tagged* records, so any two values can be compared by TLC
    (comparing an integer with a string or record is a TLC error):
        [t |-> "lit", v]  [t |-> "str", s]  [t |-> "list", xs]  [t |-> "tuple", xs]
-       [t |-> "set", xs (a set)]  [t |-> "dict", kv (a set of <<key-value, value>>)]
+       [t |-> "set", els (a set)]  [t |-> "dict", kv (a set of <<key-value, value>>)]
+   (no two kinds of value share their field names unless the fields hold the same
+    type: TLC would raise an error when it compares, say, a sequence with a set)
        [t |-> "app", f, a]      the term  f(a[1], ..., a[n])
    The value of a task is the term headed by its own label: any wrong, missing,
    reordered or stale argument changes the term.                              *)
@@ -37,7 +39,7 @@ VLit(v)     == [t |-> "lit", v |-> v]
 VStr(s)     == [t |-> "str", s |-> s]
 VList(xs)   == [t |-> "list", xs |-> xs]
 VTuple(xs)  == [t |-> "tuple", xs |-> xs]
-VSet(S)     == [t |-> "set", xs |-> S]
+VSet(S)     == [t |-> "set", els |-> S]
 VDict(kv)   == [t |-> "dict", kv |-> kv]
 VApp(f, a)  == [t |-> "app", f |-> f, a |-> a]
 
